@@ -430,8 +430,8 @@ int FSolver::StaticAxisymmetric(CBigLinProb &L)
 
                 if (blockproplist[k].LamType == 0) {
                     mu = blockproplist[k].LamFill;
-                    meshele[i].mu1 = blockproplist[k].mu_x*mu;
-                    meshele[i].mu2 = blockproplist[k].mu_y*mu;
+                    meshele[i].mu1 = blockproplist[k].mu_x*mu + (1. - mu);
+                    meshele[i].mu2 = blockproplist[k].mu_y*mu + (1. - mu);
                 }
                 if (blockproplist[k].LamType == 1) {
                     mu = blockproplist[k].LamFill;
